@@ -27,11 +27,17 @@ type script struct {
 	When    int      // membership family: number of writes acknowledged before the removal
 	Start   string   // add-node family: the new node starts "before" or "after" the change is committed
 	Args    []string // rconf-malformed family: the command
+	// stale-leader-tail: a client reads through the isolated old leader after the new leader has
+	// acknowledged its writes
+	ReadStale bool
 }
 
 func (sc script) name() string {
 	switch sc.Family {
 	case "stale-leader-tail", "follower-lag":
+		if sc.ReadStale {
+			return fmt.Sprintf("%s(tail=%d,writes=%d,restart=%v,read through the old leader)", sc.Family, sc.Tail, sc.Writes, sc.Restart)
+		}
 		return fmt.Sprintf("%s(tail=%d,writes=%d,restart=%v)", sc.Family, sc.Tail, sc.Writes, sc.Restart)
 	}
 	if sc.Family == "add-node" {
@@ -54,6 +60,9 @@ func scripts(tier string) []script {
 		for w := 1; w <= maxW; w++ {
 			for _, r := range restarts {
 				out = append(out, script{Family: "stale-leader-tail", Tail: t, Writes: w, Restart: r})
+				if len(r) <= 1 {
+					out = append(out, script{Family: "stale-leader-tail", Tail: t, Writes: w, Restart: r, ReadStale: true})
+				}
 			}
 		}
 	}
@@ -148,6 +157,16 @@ func runScript(sc script) runResult {
 		for k := 0; k < sc.Writes && s.ok(); k++ {
 			write(1, fmt.Sprintf("k%d", k), "fresh")
 			s.stabilise(400)
+		}
+		if sc.ReadStale && s.ok() {
+			// a client of the old leader, which still believes it leads, reads a key the new leader has
+			// overwritten and acknowledged meanwhile: the read may stay unanswered (its proposal dies with
+			// the stale tail) but it must not be answered with the old value
+			ci := s.addClient(0, [][]string{{"GET", "k0"}})
+			s.submit(ci)
+			s.clients[ci].mayBeLost = true
+			ev("submit(c%d@n1 GET k0)", ci)
+			s.stabilise(200)
 		}
 		delete(s.isolated, 0)
 		ev("HEAL")
@@ -299,6 +318,9 @@ func runScript(sc script) runResult {
 	// left pending on a serving node after stabilisation means the cluster stopped serving
 	if len(res.Viol) == 0 {
 		for _, c := range s.clients {
+			if c.mayBeLost {
+				continue // submitted to a node that was cut off: its proposal may die with the stale tail
+			}
 			for _, o := range c.ops {
 				if !o.Done && len(o.Args) > 0 && o.Args[0] == "GET" {
 					res.Viol = append(res.Viol, c14Viol{Kind: "unavailable", Cmd: w.Name, Shape: sc.Family, Detail: fmt.Sprintf("script %s, events %v: the read %q on node %d is never answered although a quorum is up; history: %s", w.Name, res.Events, o.Args, c.node+1, res.History)})
